@@ -89,17 +89,21 @@ def isLock : Path → Bool
   | .rgLock | .collected _ | .lock | .processed _ => true
   | _ => false
 
+theorem mem_trStatPaths {cfg : Cfg} {c : Chr} {d : Path} (h : d ∈ trStatPaths cfg c) : d = .trStat c := by
+  simp only [trStatPaths] at h; split at h <;> simp_all
+
 theorem mem_chrOutputs {cfg : Cfg} {c : Chr} {d : Path} (h : d ∈ chrOutputs cfg c) :
     (∃ s, d = .part s c) ∨ (∃ s, d = .partLin s c) ∨ (∃ s, d = .partStats s c) ∨ d = .readStat c ∨ d = .trStat c := by
   simp only [chrOutputs, List.mem_append, List.mem_map, List.mem_flatMap, List.mem_cons, List.not_mem_nil, or_false] at h
-  rcases h with ((⟨s, _, rfl⟩ | ⟨s, _, rfl | rfl⟩) | ⟨s, _, rfl | rfl⟩) | rfl | rfl
+  rcases h with (((⟨s, _, rfl⟩ | ⟨s, _, rfl | rfl⟩) | ⟨s, _, rfl | rfl⟩) | ⟨s, _, rfl⟩) | rfl | h
   · exact Or.inl ⟨s, rfl⟩
   · exact Or.inl ⟨s, rfl⟩
   · exact Or.inr (Or.inr (Or.inl ⟨s, rfl⟩))
   · exact Or.inl ⟨s, rfl⟩
   · exact Or.inr (Or.inl ⟨s, rfl⟩)
+  · exact Or.inl ⟨s, rfl⟩
   · exact Or.inr (Or.inr (Or.inr (Or.inl rfl)))
-  · exact Or.inr (Or.inr (Or.inr (Or.inr rfl)))
+  · exact Or.inr (Or.inr (Or.inr (Or.inr (mem_trStatPaths h))))
 
 theorem guarded_isLock {cfg : Cfg} {l d : Path} (h : d ∈ guarded cfg l) : isLock l = true := by
   cases l <;> simp_all [guarded, isLock]
